@@ -377,6 +377,58 @@ def decoder(src, which):
     return em.blk(parse_body(body))
 
 
+BLD_CONSTS = {"MessageIntegrity::TYPE": "tyMI", "MessageIntegritySha256::TYPE": "tyMI256", "Fingerprint::TYPE": "tyFP"}
+BLD_EXPRS = [
+    ("MessageIntegrity::TYPE", "tyMI"), ("MessageIntegritySha256::TYPE", "tyMI256"), ("Fingerprint::TYPE", "tyFP"),
+    ("self.attribute_types.iter().any(|$x| $p)", "(b.types.any (fun $x => $p))"),
+    ("self.attribute_types.iter().find(|$x| $p).cloned()", "(b.types.find? (fun $x => $p))"),
+    ("atypes.contains($x)", "(atypes.contains $x)"),
+    ("self.has_attribute($t)", "(hasAttribute b $t)"),
+    ("self.has_any_attribute(&$l)", "(hasAnyAttribute b $l)"),
+    ("attr.get_type()", "a.ty"),
+    ("Err(StunWriteError::MessageIntegrityExists)", "(Except.error WErr.messageIntegrityExists)"),
+    ("Err(StunWriteError::FingerprintExists)", "(Except.error WErr.fingerprintExists)"),
+    ("Err(StunWriteError::AttributeExists($t))", "(Except.error (WErr.attributeExists $t))"),
+    ("Ok(())", "(Except.ok b)"),
+]
+
+
+def builder_fn(src, which):
+    txt = src.get(MSG)
+    imp = impl_body(txt, r"impl\s*<'a>\s*MessageBuilder<'a>\s*\{")
+    if imp is None:
+        raise XlateError("impl MessageBuilder not found")
+    stmts_t = []
+    if which == "has_attribute":
+        body = fn_body(imp, r"pub\s+fn\s+has_attribute\s*\(\s*&self\s*,\s*atype\s*:\s*AttributeType\s*\)\s*->\s*bool\s*\{")
+        locs = ["atype"]
+    elif which == "has_any_attribute":
+        body = fn_body(imp, r"pub\s+fn\s+has_any_attribute\s*\(\s*&self\s*,\s*atypes\s*:\s*&\[AttributeType\]\s*\)\s*->\s*Option<AttributeType>\s*\{")
+        locs = ["atypes"]
+    elif which == "add_fingerprint":
+        body = fn_body(imp, r"pub\s+fn\s+add_fingerprint\s*\(\s*&mut\s+self\s*\)\s*->\s*Result<\(\),\s*StunWriteError>\s*\{")
+        locs = []
+        stmts_t = [("self.add_fingerprint_unchecked()", "addFingerprintUnchecked b")]
+    elif which == "add_raw_attribute":
+        body = fn_body(imp, r"pub\s+fn\s+add_raw_attribute\s*\(\s*&mut\s+self\s*,\s*attr\s*:\s*RawAttribute<'a>\s*\)\s*->\s*Result<\(\),\s*StunWriteError>\s*\{")
+        locs = []
+        stmts_t = [("self.attributes.push(AttrOrRaw::Raw(attr))", "{ b with attrs := b.attrs ++ [a] }"),
+                   ("self.attribute_types.push(ty)", "{ b with types := b.types ++ [ty] }")]
+    else:
+        body = fn_body(imp, r"pub\s+fn\s+add_attribute\s*\(\s*&mut\s+self\s*,\s*attr\s*:\s*&'a\s+dyn\s+AttributeWrite\s*\)\s*->\s*Result<\(\),\s*StunWriteError>\s*\{")
+        locs = []
+        stmts_t = [("self.attributes.push(AttrOrRaw::Attr(attr))", "{ b with attrs := b.attrs ++ [a] }"),
+                   ("self.attribute_types.push(ty)", "{ b with types := b.types ++ [ty] }")]
+    if body is None:
+        raise XlateError(f"MessageBuilder::{which} not found")
+    em = Emitter(exprs=BLD_EXPRS, stmts=stmts_t, state="b", ret="{v}", locals_=locs)
+    em.consts = BLD_CONSTS
+    out = em.blk(parse_body(body))
+    if which in ("add_raw_attribute", "add_attribute") and len(em.preconditions) != 1:
+        raise XlateError(f"{which}: expected exactly one contract check (the panic on the three reserved types), found {len(em.preconditions)}")
+    return out
+
+
 def req_mut(src, name):
     txt = src.get(AGENT)
     imp = impl_body(txt, r"impl\s*<'a>\s*StunRequestMut<'a>\s*\{")
@@ -491,6 +543,11 @@ def items(src):
         return f
     yield ("FnMsg", "msgWalk", "(orig_data : Bytes) (ending_attributes : List Nat) (__f : Nat) (data : Bytes) (data_offset : Nat) (seen_ending_attributes : List Nat) (seen_ending_len : Nat) : Except PErr Msg", mfb_part("loop"), None)
     yield ("FnMsg", "msgFromBytes", "(data : Bytes) : Except PErr Msg", mfb_part("entry"), None)
+    yield ("FnBuilder", "hasAttribute", "(b : Builder) (atype : Nat) : Bool", lambda: builder_fn(src, "has_attribute"), None)
+    yield ("FnBuilder", "hasAnyAttribute", "(b : Builder) (atypes : List Nat) : Option Nat", lambda: builder_fn(src, "has_any_attribute"), None)
+    yield ("FnBuilder", "addFingerprint", "(addFingerprintUnchecked : Builder → Builder) (b : Builder) : Except WErr Builder", lambda: builder_fn(src, "add_fingerprint"), None)
+    yield ("FnBuilder", "addRawAttribute", "(b : Builder) (a : BAttr) : Except WErr Builder", lambda: builder_fn(src, "add_raw_attribute"), None)
+    yield ("FnBuilder", "addAttribute", "(b : Builder) (a : BAttr) : Except WErr Builder", lambda: builder_fn(src, "add_attribute"), None)
     yield ("FnPolice", "checkAttributeTypes", "(m : Msg) (supported required_in_msg : List Nat) : Option Builder", lambda: check_attribute_types(src), None)
     yield ("FnTcp", "tcpTake", "(buf : Bytes) (offset : Nat) : Bytes × Bytes", lambda: tcp_fn(src, "take"), None)
     yield ("FnTcp", "tcpPull", "(buf : Bytes) : Option Bytes × Bytes", lambda: tcp_fn(src, "pull_data"), None)
@@ -500,6 +557,7 @@ def items(src):
 HEADERS = {
     "FnAgent": ["import StunVerif.Agent.Agent", "namespace StunVerif.Gen", "open StunVerif StunVerif.Agent", ""],
     "FnMsg": ["import StunVerif.Msg.IterState", "import StunVerif.Gen.MsgType", "namespace StunVerif.Gen", "open StunVerif", ""],
+    "FnBuilder": ["import StunVerif.Msg.Builder", "namespace StunVerif.Gen", "open StunVerif", ""],
     "FnPolice": ["import StunVerif.Msg.Police", "import StunVerif.Gen.Attr", "namespace StunVerif.Gen", "open StunVerif", ""],
     "FnTcp": ["import StunVerif.Bytes", "namespace StunVerif.Gen", "open StunVerif", ""],
 }
